@@ -134,16 +134,41 @@ func (r *renderer) lit(l QLit) string {
 		return l.S
 	case "S":
 		q := "'"
-		if strings.Contains(l.S, "'") || (!strings.Contains(l.S, "\"") && r.rng.Intn(2) == 0) {
+		if strings.Contains(l.S, "'") || r.rng.Intn(2) == 0 {
 			q = "\""
 		}
-		return q + l.S + q
+		return q + r.strBody(l.S, q[0]) + q
 	case "T":
 		return "true"
 	case "U":
 		return "false"
 	}
 	return "null"
+}
+
+// strBody spells the characters of a string value between quotes q the way the lexer's readString reads
+// them back: a backslash is always written `\\`, the closing quote character `"` as `\"` (a `'` cannot be
+// written inside single quotes at all), and newline / tab / carriage return either raw or as `\n` `\t` `\r`.
+func (r *renderer) strBody(s string, q byte) string {
+	var b strings.Builder
+	for i := 0; i < len(s); i++ {
+		c := s[i]
+		switch {
+		case c == '\\':
+			b.WriteString("\\\\")
+		case c == '"' && (q == '"' || r.rng.Intn(2) == 0):
+			b.WriteString("\\\"")
+		case c == '\n' && r.rng.Intn(2) == 0:
+			b.WriteString("\\n")
+		case c == '\t' && r.rng.Intn(2) == 0:
+			b.WriteString("\\t")
+		case c == '\r' && r.rng.Intn(2) == 0:
+			b.WriteString("\\r")
+		default:
+			b.WriteByte(c)
+		}
+	}
+	return b.String()
 }
 
 var cmpText = map[string]string{"eq": "==", "ne": "!=", "lt": "<", "le": "<=", "gt": ">", "ge": ">="}
@@ -197,7 +222,7 @@ func (r *renderer) expr(e *QExpr, prec int) string {
 
 // ---------- documents ----------
 
-var strPool = []string{"", "a", "abc", "abcdef", "hello world", "J", "Jason", "son", "x-1", "été", "a'b", "q\"r", "^a.*c$", "[", "b+"}
+var strPool = []string{"", "a", "abc", "abcdef", "hello world", "J", "Jason", "son", "x-1", "été", "a'b", "q\"r", "^a.*c$", "[", "b+", "C:\\tmp", "a\\.b", "a.b", "l1\nl2", "t\tx", "\\", "cr\rx"}
 var numPool = []float64{0, 1, 2, 3, 10, 18, 21, 25, 99.5, 100, 1e3, 2.5e-2}
 var numLits = []string{"0", "1", "2", "3", "10", "18", "21", "25", "99.5", "100", "1e3", "2.5E-2", "1000", "0.025", "3.0", "007"}
 
